@@ -106,6 +106,14 @@ func (c *child) lifecycle(mod, phase string, cb Callback) func() error {
 		switch fault {
 		case "error":
 			outcome = "error"
+			switch cb.ErrKind {
+			case "cleanexit":
+				return modules.ErrCleanExit
+			case "cleanexit-wrapped":
+				return fmt.Errorf("%s of %s asks for the exit: %w", phase, mod, modules.ErrCleanExit)
+			case "ctxcanceled":
+				return context.Canceled
+			}
 			return fmt.Errorf("%s of %s failed on purpose", phase, mod)
 		case "panic":
 			outcome = "panic"
@@ -388,7 +396,7 @@ func RunChild(sc *Scenario) *Result {
 	shutdownDone := false
 	startFailed := false
 	for _, st := range sc.Steps {
-		if startFailed && st.Op != "shutdown" && st.Op != "poststop" && st.Op != "sleep" {
+		if startFailed && !sc.ManageAfterFailedStart && st.Op != "shutdown" && st.Op != "poststop" && st.Op != "sleep" {
 			// after a failed Start the only documented continuation is Shutdown
 			c.rec(Event{Kind: "skipped", Info: st.Op})
 			continue
